@@ -11,7 +11,7 @@ import time
 import z3
 
 RLIMIT = 40_000_000          # deterministic budget per query (z3 resource units)
-WALL_MS = 20_000            # generous wall cap, only a safety net
+WALL_MS = 10_000            # generous wall cap, only a safety net
 
 
 class PathStop(Exception):
@@ -28,6 +28,7 @@ class Unsupported(Exception):
 
 class Obligation:
     def __init__(self, name, path, status, secs, model=None, note="", formula_size=0, backend="z3", reason=""):
+        backend = backend or "z3"
         self.name, self.path, self.status, self.secs = name, path, status, secs
         self.model, self.note, self.formula_size, self.backend, self.reason = model, note, formula_size, backend, reason
 
@@ -59,6 +60,7 @@ class Engine:
         self.assumptions_used = set()     # names of trusted models touched on some path
         self.global_axioms = []           # z3 formulas added to every path (spec-function axioms)
         self.budget_s = 900
+        self.wall_ms = WALL_MS
         self.nl_mode = "nra"              # 'nra': real products are real products; 'uf': opaque (congruence only)
         self._reset_path([])
 
@@ -90,7 +92,7 @@ class Engine:
         # observed to time out on queries a fresh solver decides in 0.07 s.
         s = z3.Solver()
         s.set("rlimit", self.rlimit)
-        s.set("timeout", WALL_MS)
+        s.set("timeout", self.wall_ms)
         for f in self.pc:
             s.add(f)
         for f in extra:
@@ -140,8 +142,9 @@ class Engine:
             return True
         if z3.is_false(s):
             return False
-        # boolean structure is decided atom by atom (short-circuit like Python's and/or): keeps every decision a literal
-        if not has_quant(s):
+        # purely propositional structure over Boolean constants is decided atom by atom (short-circuit like Python's
+        # and/or): every decision is then a cached literal.  Formulas with theory atoms are decided as a whole.
+        if (z3.is_and(s) or z3.is_or(s) or (z3.is_not(s) and (z3.is_and(s.arg(0)) or z3.is_or(s.arg(0))))) and _prop_only(s):
             if z3.is_and(s):
                 for c in s.children():
                     if not self.decide(c):
@@ -152,8 +155,7 @@ class Engine:
                     if self.decide(c):
                         return True
                 return False
-            if z3.is_not(s) and (z3.is_and(s.arg(0)) or z3.is_or(s.arg(0))):
-                return not self.decide(s.arg(0))
+            return not self.decide(s.arg(0))
         # a literal already decided on this path (deterministic, so replays stay aligned)
         atom, neg = (s.arg(0), True) if z3.is_not(s) else (s, False)
         known = self.lits.get(atom.get_id())
@@ -220,6 +222,10 @@ class Engine:
             else:
                 status = "unknown"
                 reason = self._last.reason_unknown()
+                fb = self._fallback_backends(self._last)
+                if fb is not None:
+                    status, reason = "unsat", ""
+                    self._fb_backend = fb
                 if __import__("os").environ.get("PYVC_DUMP"):
                     open("%s/%s_%d.smt2" % (__import__("os").environ["PYVC_DUMP"], name.replace(":", "_").replace("@", "_"), len(self.paths)), "w").write(self._last.to_smt2())
                 try:
@@ -227,7 +233,9 @@ class Engine:
                 except z3.Z3Exception:
                     model = None
         ob = Obligation(name, len(self.paths), status, time.time() - t0, model, note,
-                        formula_size=len(str(s)) if not z3.is_true(s) else 0, reason=reason)
+                        formula_size=len(str(s)) if not z3.is_true(s) else 0, reason=reason,
+                        backend=getattr(self, "_fb_backend", None) or "z3")
+        self._fb_backend = None
         self.obligations.append(ob)
         if self.verbose:
             print("   [%s] %s path=%d %.2fs %s" % (status, name, ob.path, ob.secs, reason), flush=True)
@@ -240,6 +248,49 @@ class Engine:
         elif assume_after:
             self.pc.append(cond)
         return ob
+
+    def _fallback_backends(self, solver):
+        """z3 (Python API, 5.x) answered `unknown`: hand the same query to the other installed solvers.
+        Only an `unsat` from one of them is accepted (and none may say `sat`); returns the backend name or None."""
+        import os
+        import subprocess
+        import tempfile
+        try:
+            txt = solver.to_smt2()
+        except Exception:
+            return None
+        fd, path = tempfile.mkstemp(suffix=".smt2", prefix="pyvc_")
+        os.close(fd)
+        answers = {}
+        try:
+            with open(path, "w") as f:
+                f.write(txt)
+            for nm, cmd in (("z3-4.8.12-cli", ["/usr/bin/z3", "-T:90", path]),
+                            ("cvc5-1.0.3-cli", ["/usr/bin/cvc5", "--tlimit=60000", path])):
+                if not os.path.exists(cmd[0]):
+                    continue
+                t0 = time.time()
+                try:
+                    out = subprocess.run(cmd, capture_output=True, text=True, timeout=120).stdout.strip().splitlines()
+                except Exception:
+                    out = []
+                self.solver_s += time.time() - t0
+                self.queries += 1
+                ans = out[0].strip() if out else "error"
+                answers[nm] = ans
+                if ans == "unsat":
+                    break
+        finally:
+            try:
+                os.unlink(path)
+            except OSError:
+                pass
+        if "sat" in answers.values():
+            return None
+        for nm, ans in answers.items():
+            if ans == "unsat":
+                return nm
+        return None
 
     def fail(self, name, note=""):
         """Record an obligation that failed for a non-solver reason (e.g. unexpected exception on a feasible path)."""
@@ -323,6 +374,12 @@ def _engine_bug(e):
     if isinstance(e, TypeError) and "cannot be interpreted as an integer" in str(e):
         return False
     return True
+
+
+def _prop_only(f):
+    if z3.is_and(f) or z3.is_or(f) or z3.is_not(f):
+        return all(_prop_only(c) for c in f.children())
+    return z3.is_const(f) and z3.is_bool(f)
 
 
 _HQ = {}
